@@ -230,6 +230,11 @@ type pdrv struct {
 	disc int64 // bytes discarded since Reset
 	w    int64 // bytes parsed or skipped since Reset (as reported by the parser)
 	run  string
+	// arr / front: the array a Reset(data) slice was carved from and the
+	// number of bytes in front of it (a neighbouring chunk of the same
+	// array, handed to another parser by the "neighbour" op)
+	arr   []byte
+	front int
 }
 
 func (d *pdrv) ev(e Event) Event {
@@ -332,8 +337,12 @@ func (d *pdrv) do(op map[string]any) bool {
 		extra := int(num(op["cap"]))
 		var data []byte
 		if _, has := op["data"]; has {
-			data = make([]byte, len(b), len(b)+extra)
-			copy(data, b)
+			fr := bytesOf(op["front"])
+			arr := make([]byte, len(fr)+len(b), len(fr)+len(b)+extra)
+			copy(arr, fr)
+			copy(arr[len(fr):], b)
+			data = arr[len(fr):]
+			d.arr, d.front = arr[:cap(arr)], len(fr)
 			// whatever lies behind len(data) is the caller's garbage
 			g := data[len(b):cap(data)]
 			for i := range g {
@@ -348,6 +357,23 @@ func (d *pdrv) do(op map[string]any) bool {
 			d.acc, d.disc, d.w = int64(len(b)), 0, 0
 		}
 		rec.Emit(d.ev(Event{"op": name, "data": B(b), "cap": extra, "err": pErr(err)}))
+	case "neighbour":
+		// chunk-wise use of one array: another parser instance of the same
+		// configuration is Reset with (and parses) the chunk in FRONT of
+		// this parser's data. Nothing of it is recorded: what matters is
+		// that this parser behaves as if the neighbour did not exist.
+		if d.arr != nil && d.front > 0 {
+			rec.Call(name, func() {
+				p0, err := p.ParserConfig().NewParser()
+				if err != nil {
+					return
+				}
+				if p0.Reset(d.arr[:d.front]) == nil {
+					var blk lz.Block
+					p0.Parse(&blk, 0)
+				}
+			})
+		}
 	case "readat":
 		off := d.probeOff(op)
 		lenp := int(num(op["lenp"]))
